@@ -491,7 +491,7 @@ def get_async(
                 nready = len(state["ready"])
                 if chunksize == -1:
                     ntasks = nready
-                    chunksize = -(ntasks // -num_workers)
+                    chunksize = max(-(ntasks // -num_workers), 1)
                 else:
                     used_workers = -(len(state["running"]) // -chunksize)
                     avail_workers = max(num_workers - used_workers, 0)
